@@ -1960,6 +1960,27 @@ package leveldb
 //@   at before call (*version).get#1
 //@     assert [C01,C19:buffers-before-tables] calls("memGet") == old(calls("memGet")) + (auxm != nil ? 1 : 0) + (em != nil ? 1 : 0) + (fm != nil ? 1 : 0)
 
+// C03 / C01: a read of the DB runs under a registered sequence number: the temporary snapshot Get, Has and NewIterator
+// take is still registered when the read (or the assembly of the iterator, which pins the version) happens, so that no
+// compaction finishing meanwhile may drop the versions the read is entitled to.
+//@ count (*DB).releaseSnapshot
+//@ count (*DB).acquireSnapshot
+//@ func (*DB).Get
+//@   props C03
+//@   safety off
+//@   at before call (*DB).get#1
+//@     assert [C03:the-read-runs-under-its-registered-sequence-number] calls("(*DB).acquireSnapshot") == old(calls("(*DB).acquireSnapshot")) + 1 && calls("(*DB).releaseSnapshot") == old(calls("(*DB).releaseSnapshot")) && arg3 == se.seq
+//@ func (*DB).Has
+//@   props C03
+//@   safety off
+//@   at before call (*DB).has#1
+//@     assert [C03:the-read-runs-under-its-registered-sequence-number] calls("(*DB).acquireSnapshot") == old(calls("(*DB).acquireSnapshot")) + 1 && calls("(*DB).releaseSnapshot") == old(calls("(*DB).releaseSnapshot")) && arg3 == se.seq
+//@ func (*DB).NewIterator
+//@   props C03 C02
+//@   safety off
+//@   at before call (*DB).newIterator#1
+//@     assert [C02,C03:the-iterator-is-assembled-under-its-registered-sequence-number] calls("(*DB).acquireSnapshot") == old(calls("(*DB).acquireSnapshot")) + 1 && calls("(*DB).releaseSnapshot") == old(calls("(*DB).releaseSnapshot")) && arg2 == se.seq
+
 // C01 / C03 / C11: what a write buffer says about a key. The buffer is searched at the lookup key itself (user key,
 // the reader's sequence number, seek kind), so that the first entry at or after it is the newest version visible to
 // the reader; the buffer "knows" the key exactly when that entry is of the same user key, answers with its value when
@@ -2026,6 +2047,10 @@ package leveldb
 //@   props C02
 //@   abstract keys
 //@   safety off
+// (a turn from forward to backward first leaves the entries of the key under the cursor - under the configured
+// comparer, not the bytewise one - before the backward step proper looks for the predecessor)
+//@   at before stmt goto cont
+//@     assert [C02:the-turn-backward-leaves-the-current-key-under-the-configured-comparer] kcmp(ukey, i.key) < 0
 //@   ensures [C02:prev-before-the-start-stays-there] old(i.dir) == dirSOI ==> (!result && i.dir == dirSOI && i.err == old(i.err))
 //@   ensures [C02:a-failed-iterator-does-not-move] old(i.err) != nil ==> (!result && i.dir == old(i.dir) && i.err == old(i.err))
 
